@@ -6,6 +6,7 @@ package main
 import (
 	"bytes"
 	"fmt"
+	"regexp"
 	"strconv"
 	"strings"
 
@@ -36,16 +37,35 @@ func flatOf(s *jen.Statement) []int {
 	if i := strings.Index(txt, "\n\n"); i >= 0 {
 		txt = txt[i:]
 	}
-	for _, w := range strings.Fields(txt) {
-		if strings.HasPrefix(w, "t") {
-			if n, err := strconv.Atoi(w[1:]); err == nil {
-				out = append(out, n)
-				continue
-			}
-		}
-		out = append(out, -2)
+	// every appended item carries one numbered identifier t<n>, whatever construct it is wrapped in
+	for _, m := range heapTok.FindAllString(txt, -1) {
+		n, _ := strconv.Atoi(m[1:])
+		out = append(out, n)
 	}
 	return out
+}
+
+var heapTok = regexp.MustCompile(`t[0-9]+`)
+
+// heapItem: the n-th appended item. Most are plain identifiers; some are other constructs around the identifier (a case
+// clause, a struct tag, parentheses, a literal, a call) - what is appended to a statement or its clone must stay intact
+// whatever kind of item ends the statement.
+func heapItem(s *jen.Statement, n int, shape int) {
+	id := "t" + strconv.Itoa(n)
+	switch shape % 8 {
+	case 1:
+		s.Case(jen.Id(id))
+	case 2:
+		s.Tag(map[string]string{"k": id})
+	case 3:
+		s.Parens(jen.Id(id))
+	case 4:
+		s.Lit(id)
+	case 5:
+		s.Id(id).Call()
+	default:
+		s.Id(id)
+	}
 }
 
 func ReplayHeap(tw *TraceWriter, id int, ops []HeapOp) {
@@ -53,12 +73,17 @@ func ReplayHeap(tw *TraceWriter, id int, ops []HeapOp) {
 	tw.Emit(Rec{"op": "Reset", "trace": id})
 	cells := []*jen.Statement{}
 	ntok := 0
+	shapes := id%3 == 2 // a third of the histories appends items of several shapes
 	appendToks := func(s *jen.Statement, k int, variant int) {
 		// vary the API used for appending: one call per token, or one Add with several items
 		if variant%2 == 0 {
 			for i := 0; i < k; i++ {
 				ntok++
-				s.Id("t" + strconv.Itoa(ntok))
+				if shapes {
+					heapItem(s, ntok, ntok*7+id)
+				} else {
+					s.Id("t" + strconv.Itoa(ntok))
+				}
 			}
 		} else {
 			items := []jen.Code{}
